@@ -351,7 +351,7 @@ func assignOne(destValue reflect.Value, taken any, to string) (reflect.Value, er
 			return destValue, fmt.Errorf("field mapping to a struct field but output is not a struct, type=%v", destValue.Type())
 		}
 
-		field, err := fieldByName(destValue, path)
+		field, err := settableFieldByName(destValue, path)
 		if err != nil {
 			return destValue, err
 		}
